@@ -64,8 +64,8 @@ func specRun(fs []finfo, chunks []pchunk) []specEvents {
 				tr[f.h.ID] = &specTransfer{n: sum, slots: map[int][]byte{}, create: now, update: now, serial1: f.h.Serial}
 			}
 			t := tr[f.h.ID]
-			if t == nil || no < 1 || no > t.n {
-				continue // impossible number or no transfer announced: ignored
+			if t == nil || no < 1 || no > t.n || sum != t.n {
+				continue // impossible number, no transfer announced, or a package that announces another total: not part of it
 			}
 			t.slots[no] = f.body
 			t.update = now
